@@ -28,6 +28,7 @@ fn property(id: &str) -> Option<Box<dyn Property>> {
         "C11" => Some(Box::new(props::c11::C11)),
         "C12" => Some(Box::new(props::c12::C12)),
         "C13" => Some(Box::new(props::c13::C13)),
+        "C14" => Some(Box::new(props::c14::C14)),
         _ => None,
     }
 }
@@ -269,6 +270,10 @@ fn write_evidence(p: &dyn Property, a: &Args, st: &runner::Stats, planned: u64, 
         .set("skipped", J::from_map(&st.skipped))
         .set("components", p.components())
         .set("workers", J::Int(runner::workers() as i64));
+    if p.level() == "translation_validation" {
+        cov.put("programs", J::Int(*st.counters.get("programs").unwrap_or(&0) as i64));
+        cov.put("disagreements_checked", J::Int(*st.counters.get("compiled_runs").unwrap_or(&0) as i64));
+    }
     for (k, v) in &st.extra {
         cov.put(k, v.clone());
     }
